@@ -32,10 +32,14 @@ claim("C09", "proof",
 claim("C13", "proof",
       "Coq theorems: the bounded backtracker's reusable state (generation-stamped table, re-slicing, both wrap branches) keeps invariant "
       "bt_inv; every result equals the state-free reference search and is independent of any call history; the original wrap code is "
-      "refuted. Per run: observed histories on one BacktrackerState replayed on the model inside Coq; API-level call histories (11 APIs, "
-      "GC, tiny DFA limits) on one Regex vs a fresh value per call.",
-      NOTE_COMMON + " PikeVM scratch and lazy-DFA cache contents are observed through the API histories only.",
-      "Coq proof (state invariant + refinement to reference DFS) + in-Coq replay of observed histories + aged-vs-fresh histories", "9/C13")
+      "refuted. Lazy DFA cache (Dfa.v/DfaCache.v): the empty cache satisfies the cache invariant, lookup / insert / clear preserve it, and "
+      "under it every search returns the pure (cache-free) answer or falls back - two histories that do not fall back give the same "
+      "answer, for every capacity and clear limit; the two history-dependence defects of the original code (state key of the sorted set, "
+      "acceleration on incomplete rows) are refuted variants. Per run: observed histories on one BacktrackerState and on one lazy-DFA "
+      "cache replayed on the models inside Coq; API-level call histories (11 APIs, GC, tiny DFA limits, a cache-exhaustion phase with "
+      "state-explosive patterns) on one Regex vs a fresh value per call.",
+      NOTE_COMMON + " PikeVM scratch is observed through the API histories only.",
+      "Coq proof (state invariants + refinement to the state-free search) + in-Coq replay of observed histories + aged-vs-fresh histories", "9/C13")
 claim("C16", "proof",
       "Coq theorems: Teddy (slim/fat) Find = least literal occurrence and FindMatch = leftmost-first span for every haystack, given the "
       "certified mask check on the masks/buckets dumped from the current code and the weak contract of the SIMD candidate finder; "
@@ -59,21 +63,34 @@ _RX = ("Coq theorems about the reference search on the byte-level Thompson NFA (
        "accepting path exists, leftmost start, inside the haystack, fuel never exhausted, captures well-formed; the bounded backtracker "
        "equals it from any reusable state. Per run: every corpus pattern's NFA is dumped from the current compiler, checked well-formed "
        "and simulated by the extracted model; the reference result and every top-level API are compared with regexp on a fixed corpus "
-       "with an exact ledger of recorded failing inputs. That the compiler/strategy layer is correct for ALL patterns is not proved "
-       "(per-pattern check + C14/C15/C19).")
+       "with an exact ledger of recorded failing inputs. L0 (Regex.v/Compile.v): a Gallina model of the Thompson compiler with a "
+       "denotational AST semantics - accepting paths of compile(r) = re_match, reference search on compile(r) decides the pattern language at "
+       "the leftmost start, for every pattern of the fragment (100% of the corpus) - whose output is compared for EQUALITY with the NFA "
+       "dumped from the real compiler on every run (C01). PikeVM (Pike.v, PikeSpan.v, PikeCaps.v): IsMatch, SearchAt (span) and the capture "
+       "entry points (span + slot vector, incl. the copy-on-write store) are proved equal to the reference for every wf NFA and replayed "
+       "against the real nfa.PikeVM on every run. That the strategy layer is correct for ALL patterns is not proved (C14/C19 + ledgers).")
 claim("C01", "proof", _RX, NOTE_COMMON + " Extraction of the reference uses ExtrOcamlBasic + ExtrOcamlNatInt (nat -> int).",
-      "Coq proof (reference NFA simulation = path semantics) + extracted model on dumped NFAs + differential vs regexp", "9/C01")
+      "Coq proof (compiler model = pattern language; reference NFA simulation = path semantics; PikeVM IsMatch = reference) + model/implementation "
+      "equality of compiled NFAs + extracted model on dumped NFAs + differential vs regexp", "9/C01")
 claim("C02", "proof", _RX, NOTE_COMMON + " Extraction of the reference uses ExtrOcamlBasic + ExtrOcamlNatInt (nat -> int).",
-      "Coq proof (leftmost start, leftmost-first by priority DFS) + extracted model on dumped NFAs + differential vs regexp", "9/C02")
+      "Coq proof (leftmost start; leftmost-first by priority DFS; PikeVM span = reference, pike_search_is_ref) + extracted model on dumped NFAs + "
+      "differential vs regexp", "9/C02")
 claim("C03", "proof", _RX, NOTE_COMMON + " Extraction of the reference uses ExtrOcamlBasic + ExtrOcamlNatInt (nat -> int).",
-      "Coq proof (capture well-formedness of the reference) + extracted model on dumped NFAs + differential vs regexp", "9/C03")
+      "Coq proof (capture well-formedness of the reference; PikeVM captures = reference slots, pikecaps_search_is_ref, copy-on-write store) + "
+      "in-Coq replay of observed PikeVM captures + extracted model on dumped NFAs + differential vs regexp", "9/C03")
 claim("C14", "proof",
       "Coq theorems: the bounded backtracker (all entry points, both modes, any reusable state) equals the reference search and declines "
-      "exactly when CanHandle is false. Per run: every engine entry point (PikeVM, BoundedBacktracker, lazy DFA forward/anchored/earliest/"
-      "reverse under 5 cache configurations incl. a one-state cache, one-pass DFA) is compared with the extracted reference on the SAME "
-      "dumped NFA over exhaustive short haystacks and all offsets, with an exact ledger. PikeVM/lazy DFA/one-pass are not modelled in Coq.",
+      "exactly when CanHandle is false; the PikeVM's IsMatch, SearchAt and capture entry points equal the reference (span and slots); the "
+      "lazy DFA model (determinisation with match delay, start states, byte-accounted cache with clears, search loops) returns, with ANY "
+      "cache satisfying its invariant and any capacity, the pure DFA answer or falls back; for look-free patterns IsMatch = reference, "
+      "no-match iff the reference has none, the reported end is an end of the leftmost start (priority among them: partial), anchored "
+      "search complete. Per run: every engine entry point (PikeVM, BoundedBacktracker, lazy DFA forward/anchored/earliest/reverse under 5 "
+      "cache configurations incl. a one-state cache and a prefilter-equipped DFA, one-pass DFA) is compared with the extracted reference on "
+      "the SAME dumped NFA over exhaustive short haystacks and all offsets, with an exact ledger; the Pike and Dfa models replay observed "
+      "calls / call histories of the real engines inside Coq. The one-pass DFA is compared only (Onepass.v where present).",
       NOTE_COMMON + " Extraction: ExtrOcamlBasic + ExtrOcamlNatInt.",
-      "Coq proof (backtracker = reference) + extracted reference vs every engine entry point on dumped NFAs", "9/C14")
+      "Coq proof (backtracker, PikeVM = reference; lazy DFA cache transparency + partial correctness) + in-Coq replay of observed engine "
+      "histories + extracted reference vs every engine entry point on dumped NFAs", "9/C14")
 claim("C10", "proof",
       "Coq theorems: the leftmost-longest reference (exhaustive DFS) returns the leftmost start and the maximal end among accepting paths "
       "(find_at_longest_spec, match_ends_spec); the bounded backtracker in longest mode equals it from any reusable state; the mode flag "
